@@ -1,4 +1,4 @@
-from . import cycle, sidecar, proxy, store, k8s, discovery, explore
+from . import cycle, sidecar, proxy, store, k8s, discovery, explore, pipeline
 CHECKS = {}
 for p in cycle.PROPS:
     CHECKS[p] = cycle.check
@@ -10,3 +10,5 @@ CHECKS['C09'] = store.check
 CHECKS['C18'] = k8s.check
 CHECKS['C17'] = discovery.check
 CHECKS['C20'] = explore.check
+CHECKS['C02'] = pipeline.check
+CHECKS['C15'] = pipeline.check
